@@ -7,6 +7,7 @@ CONSTANTS
   MaxClients0 = 1
   ServerAddrs = 1
   TokenSingleUse = TRUE
+  TokenTable = 2048
   MaxSteps = 8
   Addrs = {1, 2, 3}
   Dts = {250}
